@@ -48,11 +48,14 @@ package main
 //@   prop C15
 //@   safety none
 //@   oncall NewHTTPHandler: requires $arg1 == opt.writable && $arg2 == opt.skipVerifyWrite && $arg4 == opt.auth && (opt.uncompressed ==> len($arg3) == 0)
+//# the authorization value comes from --authorization or, when that is empty, from DESYNC_HTTP_AUTH
+//@   oncall NewHTTPHandler: requires $arg4 == ite(old(opt.auth) == "", envOf("DESYNC_HTTP_AUTH"), old(opt.auth))
 
 //@ func runIndexServer
 //@   prop C15
 //@   safety none
 //@   oncall NewHTTPIndexHandler: requires $arg1 == opt.writable && $arg2 == opt.auth
+//@   oncall NewHTTPIndexHandler: requires $arg2 == ite(old(opt.auth) == "", envOf("DESYNC_HTTP_AUTH"), old(opt.auth))
 
 // ---------------------------------------------------------------------------- C01
 
@@ -94,3 +97,18 @@ package main
 //@   ghost@after:Match $matched = $r0
 //@   oncall Match: requires ($arg0 == trimSuffix(pattern, "/") && $arg1 == trimSuffix(loc, "/")) || ($arg0 == absOf(pattern) && $arg1 == absOf(loc))
 //@   assert@returned $ret0 ==> $matched
+
+// ---------------------------------------------------------------------------- C11
+
+//# the chain the commands build: with a cache location the router is wrapped into a cache, and the cache store is
+//# the repairing one exactly when --cache-repair is in effect (it defaults to true: not only when given explicitly)
+//@ ghost var $rep bool
+//@ ghost var $cached bool
+//@ func MultiStoreWithCache
+//@   prop C11
+//@   safety none
+//@   ghost@entry $rep = false
+//@   ghost@entry $cached = false
+//@   ghost@after:NewRepairableCache $rep = true
+//@   ghost@after:NewCache $cached = true
+//@   assert@returned $ret1 == nil ==> ($cached <==> cacheLocation != "") && ($rep <==> (cacheLocation != "" && cmdOpt.cacheRepair))
